@@ -15,6 +15,7 @@ import (
 	"github.com/keybase/saltpack"
 	"verifharness/internal/keys"
 	"verifharness/internal/prng"
+	"verifharness/internal/script"
 )
 
 func genHistories(mode string) func(ctx *Ctx, emit func(Case)) {
@@ -28,6 +29,9 @@ func genHistories(mode string) func(ctx *Ctx, emit func(Case)) {
 			emit(Case{Stream: "history." + mode, Line: fmt.Sprintf("noop history.%s %d", mode, k), GoOut: "bad-op", Branch: fmt.Sprintf("round%d", k),
 				Sample: map[string]interface{}{"op": "a sequence of messages in one process, alternating named/anonymous senders and full/short blocks", "mode": mode},
 				Direct: func() string {
+					// real randomness: keep request lines that script crypto/rand.Reader (other workers) out while this runs
+					script.RandMu.Lock()
+					defer script.RandMu.Unlock()
 					rr := prng.New(uint64(seed[0]) | uint64(seed[1])<<8 | uint64(k)<<20)
 					signerA, signerB := keys.NewSigSecret(rr.Bytes(32), nil), keys.NewSigSecret(rr.Bytes(32), nil)
 					boxA, boxB := keys.NewBoxSecret(rr.Bytes(32), false, nil, creator), keys.NewBoxSecret(rr.Bytes(32), false, nil, creator)
